@@ -36,6 +36,20 @@ func gen(tier string) []proto.Item {
 				}
 				items = append(items, proto.Item{Scn: s, Class: fmt.Sprintf("%s/t%d-d%d/delay-assignment", v, cfg[0], cfg[1])})
 			}
+			// a first TTL above 1 (the probe of TTL t is no longer the t-th probe sent): every hop is still timed against its own probe
+			for _, first := range []int{3, 12} {
+				ds := []int{3000, 95000}
+				for code := 0; code < 16; code++ {
+					s := proto.Scn{Variant: v, First: first, Last: first + 4, Dest: first + 3, IPIDBase: 500, EchoBase: 41, TimeoutMs: cfg[0], DelayMs: cfg[1]}
+					s.Hops = map[int]proto.HopSpec{}
+					c := code
+					for t := first; t <= first+3; t++ {
+						s.Hops[t] = proto.HopSpec{DelayUs: ds[c%2]}
+						c /= 2
+					}
+					items = append(items, proto.Item{Scn: s, Class: fmt.Sprintf("%s/t%d-d%d/first-ttl-%d/delay-assignment", v, cfg[0], cfg[1], first)})
+				}
+			}
 			// a duplicate of each reply with a strictly larger delay; overtaking pairs
 			for t := 1; t <= 4; t++ {
 				for _, extra := range []int{30000, 120000} {
